@@ -1,1 +1,5 @@
-/-! C04 — property theorems (stub; no obligations yet) -/
+import Ypv.Spec.Edit
+/-! C04 — property theorems (under construction) -/
+namespace Ypv.C04
+theorem placeholder : deletePositional (.scalar none .null) [] = .scalar none .null := rfl
+end Ypv.C04
